@@ -93,7 +93,8 @@ fuzz_campaign() {
     done
     for p in "${pids[@]}"; do wait "$p"; done
     local rc=0
-    mkdir -p "$ROOT/replays"
+    local rdir="${VERIF_REPLAY_DIR:-$ROOT/replays}"
+    mkdir -p "$rdir"
     for t in $targets; do
         local ex; ex=$(cat "$work/$t/exit" 2>/dev/null || echo 99)
         if [ "$ex" != "0" ]; then
@@ -102,7 +103,7 @@ fuzz_campaign() {
                 [ -f "$a" ] || continue
                 found=1
                 local h; h=$(sha1sum "$a" | cut -c1-16)
-                local dst="$ROOT/replays/$id-$t-$h.bin"
+                local dst="$rdir/$id-$t-$h.bin"
                 cp "$a" "$dst"
                 echo "VIOLATION property=$id replay=$dst"
                 echo "  fuzz target=$t artifact=$(basename "$a") $(grep -m1 -E 'panicked at|ERROR: libFuzzer|SUMMARY' "$work/$t/log" | cut -c1-300)"
